@@ -14,6 +14,11 @@ def _magic():
     return magic.pool()
 
 
+def _boost(p):
+    from . import magic
+    return magic.boost(p)
+
+
 def magic_names(kind):
     """Pool strings that are valid names of this kind (they satisfy the
     send-side constraints as refspec states them)."""
@@ -29,7 +34,7 @@ def magic_names(kind):
 
 
 def rchannel(rnd):
-    if rnd.random() < 0.05:
+    if rnd.random() < _boost(0.05):
         v = _magic().rint(rnd, 0, 65535)
         if v is not None:
             return v
@@ -75,28 +80,28 @@ def rarg(rnd, spec, name, wtype, big=False):
     if wtype == 'bit':
         return rnd.random() < 0.5
     if wtype == 'octet':
-        if rnd.random() < 0.06:
+        if rnd.random() < _boost(0.06):
             v = _magic().rint(rnd, 0, 255)
             if v is not None:
                 return v
         return rnd.choice(gv.width_points(8, False)) if rnd.random() < 0.6 \
             else rnd.randint(0, 255)
     if wtype == 'short':
-        if rnd.random() < 0.06:
+        if rnd.random() < _boost(0.06):
             v = _magic().rint(rnd, 0, 65535)
             if v is not None:
                 return v
         return rnd.choice(gv.width_points(16, False)) if rnd.random() < 0.6 \
             else rnd.randint(0, 65535)
     if wtype == 'long':
-        if rnd.random() < 0.06:
+        if rnd.random() < _boost(0.06):
             v = _magic().rint(rnd, 0, 2**32 - 1)
             if v is not None:
                 return v
         return rnd.choice(gv.width_points(32, False)) if rnd.random() < 0.6 \
             else rnd.randint(0, 2**32 - 1)
     if wtype == 'longlong':
-        if rnd.random() < 0.06:
+        if rnd.random() < _boost(0.06):
             v = _magic().rint(rnd, -2**63, 2**63 - 1)
             if v is not None:
                 return v
@@ -135,6 +140,10 @@ def magic_arg(rnd, spec, name, wtype):
         return fixed
     if kind is not None:
         names = magic_names(kind)
+        nov = set(_magic().novel_strs)
+        novel = [x for x in names if x in nov]
+        if novel and rnd.random() < 0.6:
+            return rnd.choice(novel)
         return rnd.choice(names) if names else NotImplemented
     if wtype in _RANGES:
         v = _magic().rint(rnd, *_RANGES[wtype])
@@ -225,7 +234,7 @@ def rprop(rnd, name, wtype):
     if name == 'delivery_mode':
         return rnd.choice([1, 2])
     if name == 'priority':
-        if rnd.random() < 0.1:
+        if rnd.random() < _boost(0.1):
             v = _magic().rint(rnd, 0, 255)
             if v is not None:
                 return v
@@ -262,7 +271,7 @@ BODY_SIZES = [0, 1, 255, 2**32 - 1, 2**32, 2**63 - 1, 2**63, 2**64 - 1]
 
 
 def rbody_size(rnd):
-    if rnd.random() < 0.08:
+    if rnd.random() < _boost(0.08):
         v = _magic().rint(rnd, 0, 2**64 - 1)
         if v is not None:
             return v
